@@ -128,6 +128,83 @@ func verifC17All(root ast.Node) {
 	verifReach("C17/ok")
 }
 
+// verifC17Many checks WalkMany / InspectMany / PreorderMany over a list of roots:
+// order, paths ("[i]..."), pruning at a symbolic node index, stop after k nodes.
+func verifC17Many(roots []ast.Node, exhaustive bool) {
+	var want []verifVisit
+	for i, r := range roots {
+		for _, v := range verifExpectVisits(r, -1) {
+			want = append(want, verifVisit{"[" + verifItoa(i) + "]" + v.path, v.node})
+		}
+	}
+	var got []verifVisit
+	ast.WalkMany(roots, verifRecorder{&got, "", -1})
+	if len(got) != len(want) {
+		verifFail("C17/walkmany-count", "")
+	}
+	for i := range want {
+		if !verifSameNode(got[i].node, want[i].node) {
+			verifFail("C17/walkmany-order", verifTypeName(want[i].node))
+		}
+		if got[i].path != want[i].path {
+			verifFail("C17/walkmany-path", want[i].path+" got "+got[i].path)
+		}
+	}
+	total := len(want)
+	k := 0
+	if exhaustive {
+		k = verifChoice(total)
+	} else {
+		// stop / prune positions around the boundary between the first two roots and at both ends
+		b := len(verifExpectVisits(roots[0], -1))
+		cands := []int{0, b - 1, b, b + 1, total - 1}
+		k = cands[verifChoice(len(cands))]
+		if k < 0 || k >= total {
+			k = 0
+		}
+	}
+	// InspectMany: returning false for the k-th node skips exactly its subtree
+	var seen []ast.Node
+	ast.InspectMany(roots, func(n ast.Node) bool {
+		seen = append(seen, n)
+		return len(seen)-1 != k
+	})
+	var wantPruned []ast.Node
+	idx := 0
+	for _, r := range roots {
+		full := verifExpectVisits(r, -1)
+		prune := -1
+		if k >= idx && k < idx+len(full) {
+			prune = k - idx
+		}
+		for _, v := range verifExpectVisits(r, prune) {
+			wantPruned = append(wantPruned, v.node)
+		}
+		idx += len(full)
+	}
+	if len(seen) != len(wantPruned) {
+		verifFail("C17/inspectmany-prune", "count")
+	}
+	for i := range seen {
+		if !verifSameNode(seen[i], wantPruned[i]) {
+			verifFail("C17/inspectmany-prune", "order")
+		}
+	}
+	// PreorderMany stops as soon as the consumer stops
+	calls := 0
+	ast.PreorderMany(roots)(func(n ast.Node) bool {
+		if calls >= total || !verifSameNode(n, want[calls].node) {
+			verifFail("C17/preordermany-order", "")
+		}
+		calls++
+		return calls <= k
+	})
+	if calls != k+1 {
+		verifFail("C17/preordermany-does-not-stop", "")
+	}
+	verifReach("C17/many-ok")
+}
+
 // (i) per node type, value-symbolic children
 func verifHarness_C17(part, parts, depth, mode, budget int) {
 	lo := verifNumNodeTypes * part / parts
@@ -139,7 +216,13 @@ func verifHarness_C17(part, parts, depth, mode, budget int) {
 			break
 		}
 	}
-	verifC17All(verifBuildAny(&verifBuildCtx{mode, budget}, t, depth))
+	c := &verifBuildCtx{mode, budget}
+	n := verifBuildAny(c, t, depth)
+	verifC17All(n)
+	// the *Many variants: the same node type three times in a list (all-present pattern only)
+	if mode == 1 && depth == 1 {
+		verifC17Many([]ast.Node{n, verifBuildAny(c, t, depth), verifBuildAny(&verifBuildCtx{1, 0}, t, 1)}, true)
+	}
 }
 
 // (ii) on parser output
@@ -150,16 +233,20 @@ func verifC17Parsed(x string, entry int) {
 			verifC17All(root)
 		}
 	}
-	// WalkMany / InspectMany / PreorderMany over a list result
-	if len(nodes) > 1 {
-		n := 0
-		ast.InspectMany(nodes, func(ast.Node) bool { n++; return true })
-		want := 0
-		for _, root := range nodes {
-			want += len(verifExpectVisits(root, -1))
+	// WalkMany / InspectMany / PreorderMany over a list of parsed statements
+	var roots []ast.Node
+	for _, root := range nodes {
+		if !verifIsNil(root) {
+			roots = append(roots, root)
 		}
-		if n != want {
-			verifFail("C17/inspectmany-count", "")
+	}
+	more, _, _ := verifParse(entry, x)
+	for _, root := range more {
+		if !verifIsNil(root) {
+			roots = append(roots, root)
 		}
+	}
+	if len(roots) >= 2 {
+		verifC17Many(roots, false)
 	}
 }
